@@ -493,6 +493,9 @@ def linear(x:Tensor, weight:Tensor, bias:Tensor=None):
     if bias is not None and not isinstance(bias, Tensor):
         raise TypeError(f"Expected not None bias to be a Tensor but got {type(bias)}")
     
+    if x.ndim < 2 or weight.ndim != 2:
+        raise ValueError(f"Expected x of shape (N, in_features) and weight of shape (out_features, in_features), but got {x.shape} and {weight.shape}")
+    
     if x.device == Device.CPU:
         if bias:
             out_data = cpu_ops.addmm_forward(bias.data, x.data, weight.data.T)
